@@ -428,6 +428,8 @@ class Interp:
             h = self.pack.models.get("getattr:%s.%s" % (recv.kind.name, attr))
             if h:
                 return h(self, recv)
+            if ("%s.%s" % (recv.kind.name, attr)) in self.pack.models:
+                return BoundMethod(recv, attr)
         if isinstance(recv, Sym) and isinstance(recv.kind, Rec):
             if attr in recv.kind.fields:
                 return recv.kind.fields[attr].wrap(recv.kind.field_fn(attr)(recv.term))
@@ -900,8 +902,11 @@ class Interp:
                     self.ctx.assume(ops.truth(self.spec(s, env)))
         finally:
             self.spec_mode -= 1
+        if not self.ctx.replaying:
+            self.ctx.run.called.add("%s/%s" % (c.qualname, kind if kind == "return" else ename))
         if self.ctx._sat(z3.BoolVal(True)) == z3.unsat:
             raise Infeasible()
+        self.ctx.cover("call:%s/%s" % (c.qualname, kind if kind == "return" else ename))
         if kind == "raise":
             ecls = self.pack.exc_by_dotted(ename) if "." in ename else self.global_lookup(ename, mod)
             e = SExc(ecls, ())
